@@ -1,5 +1,5 @@
 (* Props/C02.v — Apply does exactly what the plan says and nothing else.  Statements only. *)
-From RN Require Import Base.Bytes Model.Edits Proofs.EditsP.
+From RN Require Import Base.Bytes Model.Edits Model.Fs Model.ApplyModel Proofs.EditsP Proofs.RenameP Proofs.RenameP2.
 
 (* the reverse-order loop of apply.rs equals the left-to-right reference splice on every
    well-formed edit list: any number of edits per file and per line, replacements shorter or
@@ -15,5 +15,34 @@ Theorem C02_stale_rejected : forall orig es,
   forall r, apply_edits_rev orig es <> Ok r.
 Proof. exact apply_edits_rev_mismatch. Qed.
 
+(* the rename stage (sort, re-basing on earlier renames, bookkeeping) moves EVERY path to the
+   location obtained by applying its ancestors' renames and its own: any number of renames, any
+   nesting depth; p is any path not at or below a planned destination *)
+Theorem C02_rename_stage_reaches_final_path : forall rs p,
+  wf_renames rs -> avoids rs p ->
+  run_steps (stage_steps (sort_renames rs) []) p = final_path rs p.
+Proof. exact rename_stage_reaches_final_path. Qed.
+
+(* on the file-system model: for a tree in which every rename source exists with the right kind,
+   parents are directories and every destination is free, no rename fails, the resulting tree is
+   exactly the original with every key sent to its final path; no node is lost, none appears *)
+Theorem C02_rename_stage_fs : forall rs t,
+  (forall r, In r rs -> shape r) ->
+  NoDup (map ar_path rs) ->
+  (forall r1 r2, In r1 rs -> In r2 rs -> ar_new r1 = ar_new r2 -> ar_path r1 = ar_path r2) ->
+  fs_ok t rs ->
+  (forall r, In r rs -> case_only (ar_path r) (ar_new r) = true ->
+     lookup t (parent (ar_path r) ++ [probe_name]) = None /\
+     forall r1, In r1 rs -> ar_new r1 <> parent (ar_path r) ++ [probe_name]) ->
+  exists s',
+    rename_stage no_fault (sort_renames rs) [] [] {| s_fs := t; s_n := 0; s_trace := [] |}
+    = inl (s', stage_perf (sort_renames rs) [], stage_steps (sort_renames rs) [])
+    /\ s_fs s' = map (fun e => (final_path rs (fst e), snd e)) t
+    /\ (forall q n, lookup t q = Some n -> lookup (s_fs s') (final_path rs q) = Some n)
+    /\ (forall q, lookup t q = None -> avoids rs q -> lookup (s_fs s') (final_path rs q) = None).
+Proof. exact rename_stage_fs. Qed.
+
 Print Assumptions C02_splice_is_spec.
+Print Assumptions C02_rename_stage_reaches_final_path.
+Print Assumptions C02_rename_stage_fs.
 Print Assumptions C02_stale_rejected.
